@@ -153,7 +153,7 @@ RESOLVER = {
     "C04": {"inv": ["C04"], "reps": (3, 6), "family": "C04", "life": True,
             "random": [("fail", 3500, 35000), ("wild", 1000, 10000), ("redeffail", 600, 6000)]},
     "C05": {"inv": ["C05"], "reps": (5, 12), "family": "C05",
-            "random": [("single", 2500, 25000), ("multi", 1500, 15000), ("general", 1000, 10000)]},
+            "random": [("single", 2000, 25000), ("namedsingle", 2500, 40000), ("multi", 1200, 15000), ("general", 800, 10000)]},
     "C06": {"inv": ["C06"], "reps": (3, 6), "family": "C06", "life": True,
             "random": [("wild", 3000, 30000), ("general", 1500, 15000), ("multi", 1000, 10000), ("redef", 500, 5000),
                        ("convert", 500, 5000)]},
